@@ -40,89 +40,223 @@ func ek(k string) string {
 	return k
 }
 
-func addNode(h *gHandle, w *world, n *Node) error {
+// nodeOpts: the options of a node. keyed: pass WithOutputKey (a Parallel sets the key itself).
+func nodeOpts(w *world, n *Node, outKeyOpt bool) []compose.GraphAddNodeOpt {
 	var opts []compose.GraphAddNodeOpt
 	if n.InKey != "" {
 		opts = append(opts, compose.WithInputKey(n.InKey))
 	}
-	if n.OutKey != "" {
+	if n.OutKey != "" && outKeyOpt {
 		opts = append(opts, compose.WithOutputKey(n.OutKey))
 	}
 	if n.Pre >= 0 {
-		opts = append(opts, perType[n.Pre].pre[n.PreState](w, n.Key, n.PreStream))
+		opts = append(opts, perType[n.Pre].pre[n.PreState](w, n.Key, n.PreStream, n.PreConv))
 	}
 	if n.Post >= 0 {
-		opts = append(opts, perType[n.Post].post[n.PostState](w, n.Key, n.PostStream))
+		opts = append(opts, perType[n.Post].post[n.PostState](w, n.Key, n.PostStream, n.PostConv))
 	}
+	return opts
+}
+
+func lambdaOf(w *world, n *Node) *compose.Lambda {
+	rt := &nodeRT{w: w, key: n.Key, echo: n.Echo}
+	if n.Kind == kTrans {
+		return perPair[n.In][n.Out].trans(rt)
+	}
+	return perPair[n.In][n.Out].inv(rt)
+}
+
+func addNode(h *gHandle, w *world, n *Node) error {
+	opts := nodeOpts(w, n, true)
 	if n.Kind == kPass {
 		return h.b.AddPassthroughNode(n.Key, opts...)
 	}
-	rt := &nodeRT{w: w, key: n.Key, echo: n.Echo}
-	var l *compose.Lambda
-	if n.Kind == kTrans {
-		l = perPair[n.In][n.Out].trans(rt)
-	} else {
-		l = perPair[n.In][n.Out].inv(rt)
+	return h.b.AddLambdaNode(n.Key, lambdaOf(w, n), opts...)
+}
+
+func fieldMappings(m Mapping) []*compose.FieldMapping {
+	switch {
+	case m.From != "" && m.To != "":
+		return []*compose.FieldMapping{compose.MapFields(m.From, m.To)}
+	case m.From != "":
+		return []*compose.FieldMapping{compose.FromField(m.From)}
+	case m.To != "":
+		return []*compose.FieldMapping{compose.ToField(m.To)}
 	}
-	return h.b.AddLambdaNode(n.Key, l, opts...)
+	return nil
+}
+
+func branchOf(w *world, c *Call) *compose.GraphBranch {
+	ends := make([]string, len(c.To))
+	for i, t := range c.To {
+		ends[i] = ek(t)
+	}
+	return perType[c.Cond].branch(&branchRT{w: w, key: c.From, group: c.Group, ends: ends}, c.StreamCond)
+}
+
+// buildGraph: the Graph front end: nodes per policy, edge/branch calls in the attempt's order.
+func buildGraph(s *Spec, a attempt, b *built, h *gHandle) bool {
+	added := map[string]bool{}
+	add := func(key string) bool {
+		if key == START || key == END || added[key] {
+			return true
+		}
+		added[key] = true
+		if err := addNode(h, b.w, s.node(key)); err != nil {
+			b.RejectedAt, b.RejectErr = "node:"+key, err.Error()
+			return false
+		}
+		return true
+	}
+	switch a.Policy {
+	case 0:
+		for i := range s.Nodes {
+			if !add(s.Nodes[i].Key) {
+				return false
+			}
+		}
+	case 2:
+		for i := len(s.Nodes) - 1; i >= 0; i-- {
+			if !add(s.Nodes[i].Key) {
+				return false
+			}
+		}
+	}
+	for _, ci := range a.Order {
+		c := &s.Calls[ci]
+		if !add(c.From) {
+			return false
+		}
+		for _, t := range c.To {
+			if !add(t) {
+				return false
+			}
+		}
+		var err error
+		if c.Branch {
+			err = h.b.AddBranch(ek(c.From), branchOf(b.w, c))
+		} else {
+			err = h.b.AddEdge(ek(c.From), ek(c.To[0]))
+		}
+		if err != nil {
+			b.RejectedAt, b.RejectErr = fmt.Sprintf("call:%d", ci), err.Error()
+			return false
+		}
+	}
+	return true
+}
+
+// buildChain: the Chain front end: the construction read as a sequence of nodes,
+// Parallels and ChainBranches, appended in that order (errors surface at Compile).
+func buildChain(s *Spec, b *built, h *gHandle) bool {
+	plan, ok := s.chainPlan()
+	if !ok {
+		b.RejectedAt, b.RejectErr = "harness", "not chain shaped"
+		return false
+	}
+	for _, e := range plan {
+		switch e.Kind {
+		case 0:
+			n := s.node(e.Keys[0])
+			opts := append(nodeOpts(b.w, n, true), compose.WithNodeKey(n.Key))
+			if n.Kind == kPass {
+				h.ch.AppendPassthrough(opts...)
+			} else {
+				h.ch.AppendLambda(lambdaOf(b.w, n), opts...)
+			}
+		case 1:
+			p := compose.NewParallel()
+			for _, k := range e.Keys {
+				n := s.node(k)
+				opts := append(nodeOpts(b.w, n, false), compose.WithNodeKey(n.Key))
+				if n.Kind == kPass {
+					p.AddPassthrough(n.OutKey, opts...)
+				} else {
+					p.AddLambda(n.OutKey, lambdaOf(b.w, n), opts...)
+				}
+			}
+			h.ch.AppendParallel(p)
+		case 2:
+			c := &s.Calls[e.Call]
+			cb := perType[c.Cond].chainBranch(&branchRT{w: b.w, key: c.From, group: c.Group, ends: append([]string(nil), c.To...)}, c.StreamCond)
+			for _, k := range e.Keys {
+				n := s.node(k)
+				opts := append(nodeOpts(b.w, n, true), compose.WithNodeKey(n.Key))
+				if n.Kind == kPass {
+					cb.AddPassthrough(n.Key, opts...)
+				} else {
+					cb.AddLambda(n.Key, lambdaOf(b.w, n), opts...)
+				}
+			}
+			h.ch.AppendBranch(cb)
+		}
+	}
+	return true
+}
+
+// buildWorkflow: the Workflow front end: nodes first (a node's inputs are declared on
+// its handle), then the connections in the attempt's order: an edge is an input of
+// its target (with its field mapping), a branch is added as such and each of its
+// ends takes the value of the branch's source through a data-only input
+// (WithNoDirectDependency). Errors surface at Compile, where eino resolves the
+// declarations node by node in map order.
+func buildWorkflow(s *Spec, a attempt, b *built, h *gHandle) bool {
+	wn := map[string]*compose.WorkflowNode{}
+	idx := make([]int, len(s.Nodes))
+	for i := range idx {
+		idx[i] = i
+		if a.Policy == 2 {
+			idx[i] = len(s.Nodes) - 1 - i
+		}
+	}
+	for _, i := range idx {
+		n := &s.Nodes[i]
+		opts := nodeOpts(b.w, n, true)
+		if n.Kind == kPass {
+			wn[n.Key] = h.wf.AddPassthroughNode(n.Key, opts...)
+		} else {
+			wn[n.Key] = h.wf.AddLambdaNode(n.Key, lambdaOf(b.w, n), opts...)
+		}
+	}
+	wn[END] = h.wf.End()
+	data := map[string]bool{}
+	for _, ci := range a.Order {
+		c := &s.Calls[ci]
+		if c.Branch {
+			h.wf.AddBranch(ek(c.From), branchOf(b.w, c))
+		}
+		for i, t := range c.To {
+			k := c.From + ">" + t
+			if data[k] {
+				continue // the second branch of a group: the data connection exists
+			}
+			data[k] = true
+			if c.Branch {
+				wn[t].AddInputWithOptions(ek(c.From), fieldMappings(c.mapping(i)), compose.WithNoDirectDependency())
+			} else {
+				wn[t].AddInput(ek(c.From), fieldMappings(c.mapping(i))...)
+			}
+		}
+	}
+	return true
 }
 
 func build(s *Spec, a attempt) *built {
 	b := &built{w: &world{cur: &runParams{}}, inferred: map[string][2]int{}}
 	ctx := context.Background()
 	p := mon.Safe(func() {
-		h := perPair[s.GI][s.GO].graph(s.State)
-		added := map[string]bool{}
-		add := func(key string) bool {
-			if key == START || key == END || added[key] {
-				return true
-			}
-			added[key] = true
-			if err := addNode(h, b.w, s.node(key)); err != nil {
-				b.RejectedAt, b.RejectErr = "node:"+key, err.Error()
-				return false
-			}
-			return true
+		h := perPair[s.GI][s.GO].front(s.Front, s.State)
+		var ok bool
+		switch s.Front {
+		case feChain:
+			ok = buildChain(s, b, h)
+		case feWorkflow:
+			ok = buildWorkflow(s, a, b, h)
+		default:
+			ok = buildGraph(s, a, b, h)
 		}
-		switch a.Policy {
-		case 0:
-			for i := range s.Nodes {
-				if !add(s.Nodes[i].Key) {
-					return
-				}
-			}
-		case 2:
-			for i := len(s.Nodes) - 1; i >= 0; i-- {
-				if !add(s.Nodes[i].Key) {
-					return
-				}
-			}
-		}
-		for _, ci := range a.Order {
-			c := s.Calls[ci]
-			if !add(c.From) {
-				return
-			}
-			for _, t := range c.To {
-				if !add(t) {
-					return
-				}
-			}
-			var err error
-			if c.Branch {
-				ends := make([]string, len(c.To))
-				for i, t := range c.To {
-					ends[i] = ek(t)
-				}
-				br := perType[c.Cond].branch(&branchRT{w: b.w, key: c.From, group: c.Group, ends: ends}, c.StreamCond)
-				err = h.b.AddBranch(ek(c.From), br)
-			} else {
-				err = h.b.AddEdge(ek(c.From), ek(c.To[0]))
-			}
-			if err != nil {
-				b.RejectedAt, b.RejectErr = fmt.Sprintf("call:%d", ci), err.Error()
-				return
-			}
+		if !ok {
+			return
 		}
 		cb := &infoCB{}
 		copts := []compose.GraphCompileOption{compose.WithGraphCompileCallbacks(cb)}
@@ -183,6 +317,16 @@ func variants(s *Spec) int {
 				v = l
 			}
 		}
+		if n.Nil && v < 2 {
+			v = 2
+		}
+		for _, h := range [][2]int{{n.Pre, n.PreConv}, {n.Post, n.PostConv}} {
+			if h[0] >= 0 && h[1] >= 1 {
+				if l := len(legalValues(h[0])); l > v {
+					v = l
+				}
+			}
+		}
 	}
 	if v > 4 {
 		v = 4
@@ -191,14 +335,35 @@ func variants(s *Spec) int {
 }
 
 func paramsFor(s *Spec, k runKey) *runParams {
-	p := &runParams{outVal: map[string]any{}, choice: map[int]int{}}
+	p := &runParams{outVal: map[string]any{}, hVal: map[string]any{}, choice: map[int]int{}}
 	for i := range s.Nodes {
 		n := &s.Nodes[i]
+		hv := func(slot string, t, conv int) {
+			if conv == 2 && !isIface(t) {
+				conv = 1 // only an interface-typed handler can hand on a nil value
+			}
+			switch conv {
+			case 1:
+				lv := legalValues(t)
+				p.hVal[slot] = values[lv[(k.Variant*2+k.In+i+1)%len(lv)]]
+			case 2:
+				p.hVal[slot] = nil
+			}
+		}
+		if n.Pre >= 0 {
+			hv("pre:"+n.Key, n.Pre, n.PreConv)
+		}
+		if n.Post >= 0 {
+			hv("post:"+n.Key, n.Post, n.PostConv)
+		}
 		if n.Kind == kPass {
 			continue
 		}
 		lv := legalValues(n.Out)
 		p.outVal[n.Key] = values[lv[(k.Variant*3+k.In+i)%len(lv)]]
+		if n.Nil && isIface(n.Out) && (k.Variant+i)%2 == 1 {
+			p.outVal[n.Key] = nil
+		}
 	}
 	for _, c := range s.Calls {
 		if c.Branch {
